@@ -60,7 +60,7 @@ def structure_with_terms(case, variant, rnd):
         return Atoms(**kw)
 
 
-def replacement_with_terms(pairname, coeffs=True, long_text=False, same_labels=False):
+def replacement_with_terms(pairname, coeffs=True, long_text=False, same_labels=False, zero_groups=False):
     from mofun import Atoms
     se, sx, re_, rx = repl.PAIRS[pairname]
     n = len(re_)
@@ -75,7 +75,7 @@ def replacement_with_terms(pairname, coeffs=True, long_text=False, same_labels=F
               atom_type_masses=[100.0 + i for i in range(len(uniq))],
               # same_labels: the pattern uses the structure's own type labels (a re-fitted type of the same name) with its own mass / pair coefficients
               atom_type_labels=[("S_%s" if same_labels else "P_%s") % e for e in uniq],
-              charges=[0.5 + 0.1 * i for i in range(n)], groups=[7] * n,
+              charges=[0.5 + 0.1 * i for i in range(n)], groups=[0 if zero_groups else 7] * n,      # group 0 is a legitimate group of its own
               bonds=bonds, bond_types=[i % 2 for i in range(len(bonds))], angles=angles, angle_types=[0] * len(angles),
               dihedrals=dihedrals, dihedral_types=[0] * len(dihedrals), impropers=impropers, improper_types=[0] * len(impropers))
     if coeffs:
@@ -162,7 +162,7 @@ def check(spec):
     case = repl.planted(spec['cell'], spec['pair'], spec['copies'], spec['seed'], decoys=spec.get('decoys', 3))
     S = structure_with_terms(case, spec.get('variant', 0), rnd) if not spec.get('cif_like') else case['structure']
     sp, _ = repl.patterns(spec['pair'])
-    rp = replacement_with_terms(spec['pair'], coeffs=spec.get('pattern_coeffs', True), long_text=spec.get('long_text', False), same_labels=spec.get('same_labels', False))
+    rp = replacement_with_terms(spec['pair'], coeffs=spec.get('pattern_coeffs', True), long_text=spec.get('long_text', False), same_labels=spec.get('same_labels', False), zero_groups=spec.get('zero_groups', False))
     cell = case['cell']
     planted, poses = case['planted'], case['poses']
     cur = dict(case, structure=S)
@@ -254,7 +254,7 @@ def run(rec, tier, seed):
         for ci, cell in enumerate(('cubic', 'tri+')):
             if tier == 'quick' and (pi + ci) % 2:
                 continue
-            spec = dict(cell=cell, pair=pair, copies=2, seed=seed * 100 + 40 + pi, variant=3, same_labels=True, rng=pi)
+            spec = dict(cell=cell, pair=pair, copies=2, seed=seed * 100 + 40 + pi, variant=3, same_labels=True, rng=pi, zero_groups=(pi % 2 == 1))
             msg = check(spec)
             rec.case(repr(sorted(spec.items())), group='single')
             if msg:
